@@ -184,30 +184,37 @@ static bool do_add(Sdk &s, const AddOp &a)
     kv.emplace_back(nostd::string_view(p.first.data(), p.first.size()),
                     common::AttributeValue(nostd::string_view(p.second.data(), p.second.size())));
   common::KeyValueIterableView<std::vector<std::pair<nostd::string_view, common::AttributeValue>>> attrs(kv);
+  // all four overloads of Add are driven: with/without attributes as the script says, with an explicit Context for odd values
+  opentelemetry::context::Context ctx{};
+  bool with_ctx = !a.value.s.empty() && ((a.value.s.back() - '0') % 2 == 1);
   switch (h.kind)
   {
     case 0:
     {
       uint64_t v = a.value.as_ull();
-      if (a.with_attrs) h.lc->Add(v, attrs); else h.lc->Add(v);
+      if (a.with_attrs) { if (with_ctx) h.lc->Add(v, attrs, ctx); else h.lc->Add(v, attrs); }
+      else { if (with_ctx) h.lc->Add(v, ctx); else h.lc->Add(v); }
       break;
     }
     case 1:
     {
       double v = double(a.value.as_ll());
-      if (a.with_attrs) h.dc->Add(v, attrs); else h.dc->Add(v);
+      if (a.with_attrs) { if (with_ctx) h.dc->Add(v, attrs, ctx); else h.dc->Add(v, attrs); }
+      else { if (with_ctx) h.dc->Add(v, ctx); else h.dc->Add(v); }
       break;
     }
     case 2:
     {
       int64_t v = a.value.as_ll();
-      if (a.with_attrs) h.lu->Add(v, attrs); else h.lu->Add(v);
+      if (a.with_attrs) { if (with_ctx) h.lu->Add(v, attrs, ctx); else h.lu->Add(v, attrs); }
+      else { if (with_ctx) h.lu->Add(v, ctx); else h.lu->Add(v); }
       break;
     }
     default:
     {
       double v = double(a.value.as_ll());
-      if (a.with_attrs) h.du->Add(v, attrs); else h.du->Add(v);
+      if (a.with_attrs) { if (with_ctx) h.du->Add(v, attrs, ctx); else h.du->Add(v, attrs); }
+      else { if (with_ctx) h.du->Add(v, ctx); else h.du->Add(v); }
       break;
     }
   }
